@@ -1630,3 +1630,32 @@ Proof.
   - exfalso. revert H. repeat break_match; try discriminate.
     intro H. inversion H; subst. eapply DISC; [|eassumption|eassumption]; reflexivity.
 Qed.
+
+(* a computable form of [no_feeder_after_close], for the non-vacuity examples *)
+Fixpoint nfac_b (U : unpackers) (x : exec_state) (tr : list label) : bool :=
+  match tr with
+  | [] => true
+  | l :: r => (negb (is_chunk_label l) || negb (s_peer_closed (x_state x))) && nfac_b U (exec_step U x l) r
+  end.
+
+Lemma nfac_b_sound_gen : forall U tr x0,
+  nfac_b U x0 tr = true ->
+  forall pre l post, tr = pre ++ l :: post -> is_chunk_label l = true ->
+    s_peer_closed (x_state (fold_left (exec_step U) pre x0)) = false.
+Proof.
+  induction tr as [|l0 r IH]; intros x0 H pre l post E Hl.
+  - destruct pre; discriminate.
+  - simpl in H. apply andb_true_iff in H. destruct H as [H1 H2].
+    destruct pre as [|p pre'].
+    + simpl in E. inversion E; subst. simpl. rewrite Hl in H1. simpl in H1.
+      destruct (s_peer_closed (x_state x0)); [discriminate|reflexivity].
+    + simpl in E. inversion E; subst. simpl. eapply IH; eauto.
+Qed.
+
+Lemma nfac_b_sound : forall U c tr,
+  nfac_b U {| x_state := init c; x_events := []; x_panic := None |} tr = true ->
+  no_feeder_after_close U c tr.
+Proof.
+  intros U c tr H pre l post E Hl. unfold exec. eapply nfac_b_sound_gen; eauto.
+Qed.
+
